@@ -58,7 +58,7 @@ package store
 //@ model func pubPts(nc *nats.Conn, i int) []data.Point
 //@ model func busFailed(nc *nats.Conn) bool
 //@ spec func pubKept(nc *nats.Conn) bool = pubN(nc) >= old(pubN(nc)) && (old(busFailed(nc)) ==> busFailed(nc)) && (forall i int :: i < old(pubN(nc)) ==> pubSubj(nc, i) == old(pubSubj(nc, i)) && sameSlice(pubPts(nc, i), old(pubPts(nc, i))))
-//@ spec func sameButFilledTime(a data.Point, b data.Point) bool = a.Type == b.Type && a.Key == b.Key && bits64(a.Value) == bits64(b.Value) && a.Text == b.Text && a.Tombstone == b.Tombstone && a.Origin == b.Origin && sameSlice(a.Data, b.Data) && (ns(b.Time) != -6795364578871345152 || !isUTC(b.Time) ==> a.Time == b.Time)
+//@ spec func sameButFilledTime(a data.Point, b data.Point) bool = a.Type == b.Type && a.Key == b.Key && bits64(a.Value) == bits64(b.Value) && a.Text == b.Text && a.Tombstone == b.Tombstone && a.Origin == b.Origin && sameSlice(a.Data, b.Data) && (!zeroT(b.Time) ==> a.Time == b.Time)
 
 // Trusted: SendPoints encodes and publishes the batch on the subject; it fills zero times in place first.
 //@ extern client.SendPoints(nc, subject, points, ack)
@@ -279,19 +279,18 @@ package store
 //@   ensures forall i int :: 0 <= i && i < len(*ps) ==> (exists k int :: 0 <= k && k < old(len(*ps)) && (*ps)[i] == old((*ps)[k]))
 //@   ensures forall i int, j int :: 0 <= i && i < j && j < len(*ps) ==> !sameIdent((*ps)[i], (*ps)[j])
 //@   ensures forall k int :: 0 <= k && k < old(len(*ps)) ==> (exists i int :: 0 <= i && i < len(*ps) && sameIdent((*ps)[i], old((*ps)[k])) && ns(old((*ps)[k].Time)) <= ns((*ps)[i].Time))
-//@ spec func zeroT(t time.Time) bool = ns(t) == -6795364578871345152
 // fromBatch(w, p): the written point w is the batch point p with its key normalised (and a zero time replaced)
 //@ spec func fromBatch(w data.Point, p data.Point) bool = w.Type == p.Type && w.Key == normKey(p.Key) && bits64(w.Value) == bits64(p.Value) && w.Text == p.Text && w.Tombstone == p.Tombstone && w.Origin == p.Origin && sameSlice(w.Data, p.Data) && (!zeroT(p.Time) ==> w.Time == p.Time)
 // rowIs(db, j, ty, key): stored row j has that type and (stored, normalised) key
 //@ opaque func rowIs(db []data.Point, j int, ty string, key string) bool reads db
 //@ axiom rowIs_def reads db: forall db []data.Point, j int, ty string, key string :: rowIs(db, j, ty, key) == (db[j].Type == ty && db[j].Key == key)
-// firstRow(db, j, ty, key): row j is the first stored row of that identity
-//@ spec func firstRow(db []data.Point, j int, ty string, key string) bool = 0 <= j && j < len(db) && rowIs(db, j, ty, key) && (forall j2 int :: 0 <= j2 && j2 < j ==> !rowIs(db, j2, ty, key))
 //@ spec func noRow(db []data.Point, ty string, key string) bool = forall j int :: 0 <= j && j < len(db) ==> !rowIs(db, j, ty, key)
-// a written point either replaces the first stored row of its identity, which is not newer, or no row has its identity
-//@ spec func writeOK(w data.Point, wid string, db []data.Point, ids []string) bool = (exists j int :: firstRow(db, j, w.Type, w.Key) && ids[j] == wid && ns(db[j].Time) <= ns(w.Time)) || noRow(db, w.Type, w.Key)
+// a written point either replaces a stored row of its identity that is not newer, or no row has its identity
+//@ spec func writeOK(w data.Point, wid string, db []data.Point, ids []string) bool = (exists j int :: 0 <= j && j < len(db) && rowIs(db, j, w.Type, w.Key) && ids[j] == wid && ns(db[j].Time) <= ns(w.Time)) || noRow(db, w.Type, w.Key)
 // a batch point must be written if it has a (non-zero) time and no stored row of its identity is newer
-//@ spec func mustWrite(p data.Point, db []data.Point) bool = !zeroT(p.Time) && (noRow(db, p.Type, normKey(p.Key)) || (exists j int :: firstRow(db, j, p.Type, normKey(p.Key)) && ns(db[j].Time) <= ns(p.Time)))
+//@ opaque func mustW(db []data.Point, pts []data.Point, k int) bool reads db, pts
+//@ axiom mustW_def reads db, pts: forall db []data.Point, pts []data.Point, k int :: mustW(db, pts, k) == mustWrite(pts[k], db)
+//@ spec func mustWrite(p data.Point, db []data.Point) bool = !zeroT(p.Time) && (forall j int :: 0 <= j && j < len(db) && rowIs(db, j, p.Type, normKey(p.Key)) ==> ns(db[j].Time) <= ns(p.Time))
 // noFail(d): no database call has failed since the function was entered (given none had failed before)
 //@ spec func noFail(d *sql.DB) bool = !old(dbFailed(d)) ==> !dbFailed(d)
 //@ func checkPointValues
@@ -339,11 +338,15 @@ package store
 //@   local tx *sql.Tx#1
 //@   local dbPoints data.Points#2
 //@   local dbPointIDs []string#1
+//@   local p data.Point#1
+//@   local pID string#2
 //@   local writePoints data.Points#3
 //@   local writePointIDs []string#2
 //@   local pIn data.Point#2
 //@   local j int#1
 //@   local stmt *sql.Stmt#1
+//@   local i int#2
+//@   assert [C01] row-written: i == rangeindex4 && p == writePoints[i] && pID == writePointIDs[i] at "stmt.Exec(pID, id, p.Type, p.Key, tNs, 0, p.Value, p.Text, p.Data, p.Tombstone, p.Origin)"
 //@   assert [C01] merge-written-from-batch: forall w int :: 0 <= w && w < len(writePoints) ==> (exists k int :: 0 <= k && k < len(points) && fromBatch(writePoints[w], points[k])) at "tx.Prepare(`INSERT INTO node_points(id, node_id, type, key, time, idx, value, text, data, tombstone, origin) VALUES(?, ?, ?, ?, ?, ?, ?, ?, ?, ?, ?) ON CONFLICT(id) DO UPDATE SET type = ?3, key = ?4, time = ?5, idx = ?6, value = ?7, text = ?8, data = ?9, tombstone = ?10, origin = ?11 `)"
 //@   requires sdb != nil && sdb.db != nil && acyclic(sdb)
 //@   modifies state(sdb.db), state(sql.Tx)
@@ -362,7 +365,9 @@ package store
 //@     invariant sinceLoop(writePoints) && sinceLoop(writePointIDs) && len(writePoints) == len(writePointIDs) && len(dbPoints) == len(dbPointIDs)
 //@     invariant [C01] written-from-batch: forall w int :: 0 <= w && w < len(writePoints) ==> (exists k int :: 0 <= k && k <= rangeindex && fromBatch(writePoints[w], points[k]))
 //@     invariant [C01] newest-wins: forall w int :: 0 <= w && w < len(writePoints) ==> writeOK(writePoints[w], writePointIDs[w], dbPoints, dbPointIDs)
-//@     invariant [C01] every-newer-point-written: forall k int :: 0 <= k && k <= rangeindex && mustWrite(points[k], dbPoints) ==> (exists w int :: 0 <= w && w < len(writePoints) && fromBatch(writePoints[w], points[k]))
+//@     invariant [C01] batch-identities-distinct: forall a int, b int :: 0 <= a && a < b && b < len(points) ==> !sameIdent(points[a], points[b])
+//@     invariant [C01] one-write-per-identity: forall w1 int, w2 int :: 0 <= w1 && w1 < w2 && w2 < len(writePoints) ==> !(writePoints[w1].Type == writePoints[w2].Type && writePoints[w1].Key == writePoints[w2].Key)
+//@     invariant [C01] every-newer-point-written: forall k int :: triggers(mustW(dbPoints, points, k)) ==> (0 <= k && k <= rangeindex && mustW(dbPoints, points, k) ==> (exists w int :: 0 <= w && w < len(writePoints) && fromBatch(writePoints[w], points[k])))
 //@     modifies writePoints, writePointIDs
 //@     decreases len(points) - rangeindex
 //@   loop 3:
@@ -403,18 +408,24 @@ package store
 //@     decreases len(edges) - rangeindex
 
 //@ func (*DbSqlite).edgePoints
-//@   props C04, C05
+//@   props C04, C05, C01
 //@   local sdb *store.DbSqlite#1
 //@   local nodeID string#1
 //@   local parentID string#2
 //@   local points data.Points#1
+//@   local p data.Point#1
 //@   local tx *sql.Tx#1
 //@   local dbPoints data.Points#2
 //@   local dbPointIDs []string#1
+//@   local pID string#3
 //@   local writePoints data.Points#3
 //@   local writePointIDs []string#2
 //@   local nodeType string#5
+//@   local pIn data.Point#3
+//@   local j int#1
 //@   local stmt *sql.Stmt#1
+//@   local i int#2
+//@   assert [C01] row-written: i == rangeindex5 && p == writePoints[i] && pID == writePointIDs[i] at "stmt.Exec(pID, edge.ID, p.Type, p.Key, tNs, 0, p.Value, p.Text, p.Data, p.Tombstone, p.Origin)"
 //@   requires sdb != nil && sdb.db != nil && acyclic(sdb)
 //@   modifies state(sdb.db), state(sql.Tx), state(sdb), &sdb.meta.RootID
 //@   ensures [C04, C05] no-transaction-left-open: openTxs(sdb.db) == old(openTxs(sdb.db))
@@ -444,14 +455,18 @@ package store
 //@     invariant txOpen(tx) && txDb(tx) == sdb.db && openTxs(sdb.db) == old(openTxs(sdb.db)) + 1 && commits(sdb.db) == old(commits(sdb.db)) && noFail(sdb.db)
 //@     invariant sinceLoop(writePoints) && sinceLoop(writePointIDs) && len(writePoints) == len(writePointIDs) && len(dbPoints) == len(dbPointIDs)
 //@     invariant nodeType == "" || (exists k int :: 0 <= k && k <= rangeindex && points[k].Type == "nodeType" && points[k].Text == nodeType)
+//@     invariant [C01] written-from-batch: forall w int :: 0 <= w && w < len(writePoints) ==> (exists k int :: 0 <= k && k <= rangeindex && points[k].Type != "nodeType" && fromBatch(writePoints[w], points[k]))
+//@     invariant [C01] newest-wins: forall w int :: 0 <= w && w < len(writePoints) ==> writeOK(writePoints[w], writePointIDs[w], dbPoints, dbPointIDs)
+//@     invariant [C01] batch-identities-distinct: forall a int, b int :: 0 <= a && a < b && b < len(points) ==> !sameIdent(points[a], points[b])
+//@     invariant [C01] one-write-per-identity: forall w1 int, w2 int :: 0 <= w1 && w1 < w2 && w2 < len(writePoints) ==> !(writePoints[w1].Type == writePoints[w2].Type && writePoints[w1].Key == writePoints[w2].Key)
+//@     invariant [C01] every-newer-point-written: forall k int :: triggers(mustW(dbPoints, points, k)) ==> (0 <= k && k <= rangeindex && points[k].Type != "nodeType" && mustW(dbPoints, points, k) ==> (exists w int :: 0 <= w && w < len(writePoints) && fromBatch(writePoints[w], points[k])))
 //@     modifies writePoints, writePointIDs
 //@     decreases len(points) - rangeindex
 //@   loop 4:
 //@     invariant -1 <= rangeindex && rangeindex < len(dbPoints) || rangeindex == -1
 //@     invariant len(writePoints) == len(writePointIDs) && len(dbPoints) == len(dbPointIDs)
-//@     invariant refOf(writePoints) == refOf(preloop(writePoints)) || sinceLoop(writePoints)
-//@     invariant refOf(writePointIDs) == refOf(preloop(writePointIDs)) || sinceLoop(writePointIDs)
-//@     modifies writePoints, writePointIDs
+//@     invariant sameSlice(writePoints, preloop(writePoints)) && sameSlice(writePointIDs, preloop(writePointIDs))
+//@     invariant [C01] forall j int :: 0 <= j && j <= rangeindex ==> !rowIs(dbPoints, j, pIn.Type, pIn.Key)
 //@     decreases len(dbPoints) - rangeindex
 //@   loop 5:
 //@     invariant -1 <= rangeindex && rangeindex < len(writePoints) || rangeindex == -1
